@@ -42,9 +42,15 @@ func main() {
 	case "selftest":
 		os.Exit(cmdSelftest(os.Args[2:]))
 	default:
+		if fn := instCommands[os.Args[1]]; fn != nil {
+			os.Exit(fn(os.Args[2:]))
+		}
 		usage()
 	}
 }
+
+// instCommands are sub-commands that exist only in builds from the instrumented copy.
+var instCommands = map[string]func(args []string) int{}
 
 func envSeed() uint64 {
 	if s := os.Getenv("VERIF_SEED"); s != "" {
